@@ -799,7 +799,11 @@ _MODEL = None
 def build_model():
     global _MODEL
     if _MODEL is None or not _MODEL[0]:
-        _MODEL = fw.ocaml_model("C09", ["Model/Decode.vo"])
+        exe = os.path.join(fw.VERIF, "bin", "modelrun_C09")
+        if os.environ.get("C09_REUSE_MODEL") == "1" and os.path.exists(exe):
+            _MODEL = (True, exe)     # development only (mutation runs): skip the locked Coq build
+        else:
+            _MODEL = fw.ocaml_model("C09", ["Model/Decode.vo"])
     return _MODEL
 
 
